@@ -7,6 +7,7 @@ package pagedoc
 
 import (
 	"fmt"
+	"strconv"
 	"strings"
 
 	"verifharness/vlib"
@@ -111,6 +112,92 @@ type Doc struct {
 	Flow   []*Node
 	NUnits int
 	Tags   map[string]bool
+	// margin boxes of the base @page rule besides @bottom-center, each with counter-* declarations
+	// of its own and a content made of counter() / counters() values
+	MBoxes []MBox
+}
+
+// CounterNames are the counters margin rules manipulate / show (index = name in the Coq model)
+var CounterNames = []string{"page", "pages", "c", "d"}
+
+type MOp struct {
+	Name int // index in CounterNames
+	V    int
+}
+
+type MRead struct {
+	Name int
+	All  bool // counters(name, ".") instead of counter(name)
+}
+
+type MBox struct {
+	At                  string // at-keyword without the @
+	Resets, Sets, Incrs []MOp
+	Reads               []MRead
+}
+
+func (b MBox) CSS() string {
+	var ds []string
+	ops := func(prop string, l []MOp) {
+		if len(l) == 0 {
+			return
+		}
+		var vs []string
+		for _, o := range l {
+			vs = append(vs, fmt.Sprintf("%s %d", CounterNames[o.Name], o.V))
+		}
+		ds = append(ds, prop+": "+strings.Join(vs, " "))
+	}
+	ops("counter-reset", b.Resets)
+	ops("counter-set", b.Sets)
+	ops("counter-increment", b.Incrs)
+	var cs []string
+	for _, r := range b.Reads {
+		if r.All {
+			cs = append(cs, fmt.Sprintf(`counters(%s, ".")`, CounterNames[r.Name]))
+		} else {
+			cs = append(cs, fmt.Sprintf("counter(%s)", CounterNames[r.Name]))
+		}
+	}
+	ds = append(ds, "content: "+strings.Join(cs, ` "/" `), "font: 10px/10px Ahem")
+	return fmt.Sprintf("@%s { %s }", b.At, strings.Join(ds, "; "))
+}
+
+func (b MBox) Coq() string {
+	ops := func(l []MOp) string {
+		var vs []string
+		for _, o := range l {
+			vs = append(vs, fmt.Sprintf("(%d%%N, (%d)%%Z)", o.Name, o.V))
+		}
+		return vlib.List(vs)
+	}
+	var rs []string
+	for _, r := range b.Reads {
+		if r.All {
+			rs = append(rs, fmt.Sprintf("RCounters %d%%N", r.Name))
+		} else {
+			rs = append(rs, fmt.Sprintf("RCounter %d%%N", r.Name))
+		}
+	}
+	return fmt.Sprintf("(mkMBox %s %s %s %s)", ops(b.Resets), ops(b.Sets), ops(b.Incrs), vlib.List(rs))
+}
+
+// ParseMarginText reads the text of a margin box made by MBox.CSS back: one list of numbers
+// per counter() / counters() (nil when the text has another form)
+func ParseMarginText(s string) [][]int {
+	var out [][]int
+	for _, part := range strings.Split(s, "/") {
+		var l []int
+		for _, f := range strings.Split(part, ".") {
+			v, err := strconv.Atoi(f)
+			if err != nil {
+				return nil
+			}
+			l = append(l, v)
+		}
+		out = append(out, l)
+	}
+	return out
 }
 
 func (s Sel) CSS() string {
@@ -163,7 +250,7 @@ func (d Decl) Coq() string {
 	return fmt.Sprintf("(mkDecl %s %s %s)", PropCoq[d.Prop], v, vlib.Bool(d.Important))
 }
 
-func (r Rule) CSS(marginBox bool) string {
+func (r Rule) CSS(marginBox bool, more ...MBox) string {
 	var sels []string
 	for _, s := range r.Sels {
 		sels = append(sels, s.CSS())
@@ -175,6 +262,9 @@ func (r Rule) CSS(marginBox bool) string {
 	mb := ""
 	if marginBox {
 		mb = `; @bottom-center { content: counter(page) "/" counter(pages); font: 10px/10px Ahem }`
+		for _, b := range more {
+			mb += " " + b.CSS()
+		}
 	}
 	return fmt.Sprintf("@page %s { %s%s }", strings.Join(sels, ", "), strings.Join(ds, "; "), mb)
 }
@@ -301,7 +391,11 @@ func (d *Doc) HTML() string {
 	}
 	sb.WriteString("><head><style>\n")
 	for i, r := range d.Rules {
-		sb.WriteString(r.CSS(i == 0))
+		if i == 0 {
+			sb.WriteString(r.CSS(true, d.MBoxes...))
+		} else {
+			sb.WriteString(r.CSS(false))
+		}
 		sb.WriteString("\n")
 	}
 	sb.WriteString("html,body{margin:0;padding:0}\nbody{font:20px/20px Ahem;width:100px}\np{margin:0}\n")
